@@ -462,8 +462,8 @@ def check_C10(tier, seed, replay=None):
                        "partition and read back with lookback 0, Remote.v; JConcat: coalesce) vs the result of the real distributed engine "
                        "over 2 or 3 local engines on a random partition of the series (whole nested queries as in treecases)",
                        30, 300, shards_quick=8, shards_thorough=16))
-    return ref_family_check("C10", tier, seed, [("dist", "", 1500), ("dist", "agg", 1200), ("dist", "range", 500)],
-                            [("dist", "", 30000), ("dist", "agg", 30000), ("dist", "range", 10000), ("dist", "noties", 10000)], corr=corr)
+    return ref_family_check("C10", tier, seed, [("dist", "", 1500), ("dist", "agg", 1200), ("dist", "range", 500), ("dist", "fb", 800)],
+                            [("dist", "", 30000), ("dist", "agg", 30000), ("dist", "range", 10000), ("dist", "noties", 10000), ("dist", "fb", 15000)], corr=corr)
 
 
 def check_C07(tier, seed, replay=None):
